@@ -196,3 +196,11 @@ reg('C24', engine='pysym',
     note='Trusted: pysym/SymStr proxies; emit_c_code is uninterpreted (a fresh symbolic text); argparse, real files '
          'and encodings are not covered.',
     technique='symbolic execution of the real Python functions via proxy strings, SMT (z3)')
+
+reg('C32', engine='pysym',
+    text='The real flatten/_flatten and Verifier.__init__ key/name construction run on symbolic strings (str-subclass '
+         'tokens expanded back into symbolic character lists): z3 proves flatten injective over all pairs of bounded value '
+         'shapes, independent of dict insertion order, the joined key injective for NUL-free components and the name '
+         'injective in the two CRC values; violations found (NUL inside a component, list/tuple, True/1) are known findings.',
+    note='Trusted: pysym/SymStr/Tok proxies, CRC32 uninterpreted. Bounded shapes; int leaves from a fixed set.',
+    technique='symbolic execution of the real Python functions via proxy strings, SMT (z3)')
